@@ -239,8 +239,8 @@ class Folder:
                 return chr(args[0])
             if fn == 'ord':
                 return ord(args[0])
-            if fn in ('str', 'int', 'bytes', 'hex'):
-                return {'str': str, 'int': int, 'bytes': bytes, 'hex': hex}[fn](*args)
+            if fn in ('str', 'int', 'bytes', 'hex', 'bool'):
+                return {'str': str, 'int': int, 'bytes': bytes, 'hex': hex, 'bool': bool}[fn](*args)
             if isinstance(e.func, ast.Attribute) and isinstance(e.func.value, ast.Name) and e.func.attr == 'escape' and \
                     self.module.imports.get(e.func.value.id, e.func.value.id) == 're' and len(args) == 1:
                 import re as _re
